@@ -236,6 +236,16 @@ def eval_e2e(case):
         sig = "C07.e2e.verdict"
         okn = nets[0] if sts[0].ok else (nets[1] if sts[1].ok else None)
         if okn is not None:
+            # a dead-end region on the inlet side of a pressure controller has no equation that fixes its pressure level (the
+            # controller supplies whatever lift is needed): the system is singular, one engine stops at an arbitrary level
+            # (seen: 626 bar in a 0.04 bar net), the other does not stop. No statement about the engines.
+            fixed = [abs(e.get("p_bar") or 0.0) for e in rec["elements"] if e["table"] == "ext_grid"] + \
+                    [abs(e.get("controlled_p_bar") or 0.0) for e in rec["elements"] if e["table"] == "press_control"] + \
+                    [abs(e.get("p_flow_bar") or 0.0) for e in rec["elements"] if e["table"].startswith("circ_pump")] + [1.0]
+            pj = okn.res_junction.p_bar.values.astype(float)
+            if len(pj) and np.nanmax(np.abs(np.where(np.isnan(pj), 0.0, pj))) > 50.0 * max(fixed):
+                return Outcome(discard="undetermined_pressure_level_behind_pressure_controller")
+        if okn is not None:
             for t in ("pump", "compressor"):
                 # zero OR reverse flow (same criterion as for differing results below): the lift is discontinuous there
                 if t in okn and len(okn[t]) and (okn["res_" + t].mdot_from_kg_per_s.fillna(1.0) <= 1e-9).any():
